@@ -225,7 +225,11 @@ func (obj Object) CompletionAtPos(ctx context.Context, pos hcl.Pos) []lang.Candi
 		Start:    pos,
 		End:      eType.SrcRange.End,
 	}
-	editRange = objectItemPrefixBasedEditRange(remainingRange, fileBytes, trimmedBytes)
+	// the range starts where the prefix starts: blanks between
+	// the prefix and the position are part of what is replaced
+	blanksLen := len(leftBytes) - len(bytes.TrimRight(leftBytes, " \t"))
+	rawPrefixBytes := fileBytes[pos.Byte-blanksLen-len(trimmedBytes) : pos.Byte]
+	editRange = objectItemPrefixBasedEditRange(remainingRange, fileBytes, rawPrefixBytes)
 
 	return objectAttributesToCandidates(ctx, prefix, obj.cons.Attributes, declared, editRange)
 }
